@@ -102,14 +102,36 @@ impl Write for CaptureWriter {
     }
 }
 
+/// what the operating system does with `.` and `..` (there are no symlinks here)
+fn resolve(path: &Path) -> PathBuf {
+    let mut out: Vec<std::ffi::OsString> = Vec::new();
+    for c in path.components() {
+        match c {
+            std::path::Component::RootDir | std::path::Component::CurDir => {}
+            std::path::Component::ParentDir => {
+                out.pop();
+            }
+            std::path::Component::Normal(s) => out.push(s.to_os_string()),
+            std::path::Component::Prefix(_) => {}
+        }
+    }
+    let mut p = PathBuf::from("/");
+    for s in out {
+        p.push(s);
+    }
+    p
+}
+
 impl FileSystem for MemFs {
     type Reader = ScriptReader;
     type Writer = CaptureWriter;
 
     fn exists(&self, path: &Path) -> bool {
+        let path = &resolve(path);
         self.files.contains_key(path) || self.dirs.contains(path)
     }
     fn is_dir(&self, path: &Path) -> io::Result<bool> {
+        let path = &resolve(path);
         if self.dirs.contains(path) {
             Ok(true)
         } else if self.files.contains_key(path) {
@@ -119,6 +141,7 @@ impl FileSystem for MemFs {
         }
     }
     fn is_file(&self, path: &Path) -> io::Result<bool> {
+        let path = &resolve(path);
         if self.files.contains_key(path) {
             Ok(true)
         } else if self.dirs.contains(path) {
@@ -128,6 +151,7 @@ impl FileSystem for MemFs {
         }
     }
     fn open_read(&self, path: &Path) -> io::Result<Self::Reader> {
+        let path = &resolve(path);
         match self.files.get(path) {
             Some(spec) => Ok(ScriptReader {
                 spec: spec.clone(),
